@@ -15,9 +15,21 @@ Proof. vm_compute. reflexivity. Qed.
 
 (** the configurations of the real server: any listing / usage / blur setting
     with the repository's constants *)
-Definition gen_cfg (al us : bool) (bl : option Z) : config := mkCfg al us bl gen_exp gen_period.
+Definition gen_cfg_w (al us : bool) (bl : option Z) (w : welcome_cfg) : config :=
+  mkCfg al us bl gen_exp gen_period w.
+
+(** the same without notices (no --motd, --advertise-version, --signal-error) *)
+Definition gen_cfg (al us : bool) (bl : option Z) : config :=
+  mkCfg al us bl gen_exp gen_period (mkWelcome None None None).
+
+Lemma gen_cfg_is_w al us bl : gen_cfg al us bl = gen_cfg_w al us bl (mkWelcome None None None).
+Proof. reflexivity. Qed.
 
 Lemma gen_cfg_exp al us bl : 0 < exp (gen_cfg al us bl).
 Proof. exact gen_exp_pos. Qed.
 Lemma gen_cfg_period al us bl : 0 < period (gen_cfg al us bl).
+Proof. exact gen_period_pos. Qed.
+Lemma gen_cfg_w_exp al us bl w : 0 < exp (gen_cfg_w al us bl w).
+Proof. exact gen_exp_pos. Qed.
+Lemma gen_cfg_w_period al us bl w : 0 < period (gen_cfg_w al us bl w).
 Proof. exact gen_period_pos. Qed.
